@@ -8,7 +8,9 @@ CONSTANTS
     NModes <- MC_NModes
     Seeds <- MC_Seeds
     Rights <- MC_Rights
-    Extend <- MC_Extend
+    Wraps <- MC_Wraps
+    SpanPrefix <- MC_SpanPrefix
+    MetricPrefix <- MC_MetricPrefix
     Which = "sites_quick"
     GrowLeaves <- MC_GrowLeaves
     MaxGrow = 0
